@@ -10,7 +10,7 @@ EXPLANATION = ('Decides on the MIR of the current tree: every command code is de
                'codes coincide; for every response mapper pair (server writer, SDK reader), every SDK to_bytes/from_bytes pair, the journal entry and command codecs and the on-disk message codec, the sequence of '
                'fixed widths and variable parts written equals the sequence read (or, for pairs that use different but compatible idioms, both still equal their pinned reference); the count written in front of '
                'an element loop is the length of the collection that the loop writes; every validate() keeps its confirmed byte-length and range comparisons (they bound the lengths that are cast to u8/u32 on the wire); '
-               'a frame reaches a handler only after it was decoded and validated successfully, failures are answered with an error response. Not decided: value-level round trips, serde behaviour for HTTP/JSON.')
+               'a frame reaches a handler only after it was decoded and validated successfully, failures are answered with an error response. Also: named layouts - the fields a writer emits, in order, are the fields the reader stores the values into (compared on the names both sides use), which catches two same-width fields written or read in each other\'s place. Not decided: value-level round trips, serde behaviour for HTTP/JSON.')
 ASSUMPTIONS = ['rules/props/wire_frozen.json is the reference taken from the pinned, triaged tree (tools/freeze_wire.py); a deliberate protocol change re-freezes it',
                'HTTP/JSON uses the same serde-derived SDK types on both sides (one definition per type)']
 
@@ -150,6 +150,169 @@ def run(ctx, rep):
                    'field order drifted from the pinned reference: writer [%s] (pinned [%s]); reader [%s] (pinned [%s])' % (' '.join(x), ' '.join(nm['w']), ' '.join(y), ' '.join(nm['r'])))
     want = sum(len(ref['names']['w']) for ref in frozen['pairs'].values() if ref.get('names'))
     rep.ob('R13.f', 'iggy::bytes_serializable', 'labelled fields', total * 10 >= want * 8, None, '%d field positions compared (reference %d)' % (total, want))
+
+    rep.rule('R13.g', 'cursor discipline of the decoders: between two reads of the buffer at the same cursor expression the cursor is advanced on every path (a dropped or branch-local `position += n` makes the next field be decoded from the bytes of the previous one)', floor=25, analysis='A11 cursor tracking')
+    readers = sorted({r for _, _, r in codec_pairs(ctx)} | {f for f in ctx.facts.body_defs() if re.search(r'::(from_bytes|from_raw_bytes|try_from_bytes|map_to_\w+)$', f) and (in_crate(f, 'iggy::') or in_crate(f, 'server::'))})
+    for f in readers:
+        if not ctx.has(f):
+            continue
+        bad, n = wire.cursor_double_reads(ctx, f)
+        if n == 0:
+            continue
+        rep.ob('R13.g', f, 'cursor advanced between reads', not bad, None, '%d reads through a cursor' % n if not bad else
+               'the read at line %s and the read at line %s both decode from `%s` and a path between them does not advance the cursor' % (bad[0][0], bad[0][1], bad[0][2]))
+
+    rep.rule('R13.h', 'the length prefix the server writes in front of a payload is the length of that payload: a message rebuilt after decryption carries length = len(decrypted payload), and PolledMessage::extend writes length then payload', floor=2, analysis='A10 aggregate forms')
+    import forms as forms_
+    PM = 'iggy::models::messages::PolledMessage'
+    SYSF = 'server::streaming::systems::system::System::poll_messages'
+    aggs = []
+    for d_ in [x for x in ctx.facts.body_defs() if x == SYSF or x.startswith(SYSF + '::{closure')]:
+        kb = ctx.body(d_)
+        for blk in sorted(kb.reach):
+            for st in kb.stmts(blk):
+                rv = st.get('rv')
+                if rv and rv['r'] == 'agg' and rv.get('adt') == PM and not st.get('x', '').startswith('m:'):
+                    e = kb._pexpr_rvalue(rv, 0, frozenset())
+                    aggs.append((dict((n, canon(v, 0, 3)) for n, v in e[3]), '%s:%s' % (kb.file, st.get('ln'))))
+    if not aggs:
+        rep.anchor_lost('R13.h', 'PolledMessage rebuilt in System::poll_messages')
+    for f_, where in aggs:
+        pl, ln_ = f_.get('payload', ''), f_.get('length', '')
+        ok = 'decrypt' in pl and ln_.startswith('Vec::len(') and 'decrypt' in ln_ or (ln_ == 'Vec::len(%s)' % pl)
+        rep.ob('R13.h', SYSF, 'length = len(decrypted payload)', ok, where, 'length: %s' % ln_[:90] if ok else
+               'the rebuilt message carries length `%s` but payload `%s`: the length prefix on the wire disagrees with the bytes that follow it' % (ln_[:80], pl[:80]))
+    ext = 'iggy::models::messages::PolledMessage::extend'
+    if ctx.has(ext):
+        nw = wire.named_writer(ctx, ext, helpers)
+        okx = [x for x in nw if x in ('length', 'payload')] [-2:] == ['length', 'payload']
+        rep.ob('R13.h', ext, 'length written in front of the payload', okx, None, ' '.join(nw) if okx else 'PolledMessage::extend emits %s' % nw)
+
+    rep.rule('R13.i', 'HTTP paths: every complete path template the SDK formats (first segment is a resource the server routes) matches a registered server route segment by segment (literal = literal, argument = path parameter)', floor=6, analysis='A11 tables')
+    sdk_t, srv_r = wire.http_templates(ctx)
+    routes = sorted({r for v in srv_r.values() for r in v})
+    roots = {wire._segs(r)[0] for r in routes if wire._segs(r)}
+    nt = 0
+    for fn, ts in sorted(sdk_t.items()):
+        for t in ts:
+            sg = wire._segs(t)
+            if not sg or sg[0] not in roots:
+                continue   # a fragment ("{}/{}") that is appended to a base path elsewhere
+            nt += 1
+            okm = wire.template_matches(t, routes)
+            rep.ob('R13.i', fn, 'path ' + t, okm, None, 'matches a server route' if okm else
+                   'the SDK requests `%s` but no server route has this shape (routes of this resource: %s): the request can only be answered 404/400' % (t, [r for r in routes if wire._segs(r)[:1] == sg[:1] and len(wire._segs(r)) == len(sg)][:4]))
+    rep.ob('R13.i', 'server::http', 'routes enumerated', len(routes) >= 25, None, '%d routes, %d complete SDK templates' % (len(routes), nt))
+
+    rep.rule('R13.j', 'HTTP handlers act on the stream and topic named in the request path: every Identifier handed to a System operation as stream_id / topic_id is built from a path parameter (directly, or through the request field the handler fills from it), never left at the serde-skipped default', floor=30, analysis='A9 provenance')
+    SYSP = 'server::streaming::systems::system::System::'
+    CONV = ('from_str_value', 'try_into', 'try_from', 'from_str', 'numeric', 'named')
+    for df in sorted(ctx.facts.body_defs()):
+        if not df.startswith('server::http::') or df.startswith('server::http::jwt') or '::{closure' not in df:
+            continue
+        hb = ctx.body(df)
+        hfn = ctx.user_fn_of(df)
+        for c in hb.calls:
+            if not c.name.startswith(SYSP) or not is_user_call(c):
+                continue
+            rec = ctx.fn_record(c.name)
+            if not rec:
+                continue
+            for i, pn in enumerate(rec['pnames']):
+                if pn not in ('stream_id', 'topic_id') or i >= len(c.args) or not rec['params'][i].endswith('Identifier'):
+                    continue
+                e = hb.expr_operand(c.args[i])
+                ok = any(x[0] == 'call' and x[1].split('::')[-1] in CONV for x in walk(e))
+                if not ok:
+                    fe = strip_adaptors(e)
+                    if fe[0] == 'field':
+                        for blk in sorted(hb.reach):
+                            for st in hb.stmts(blk):
+                                lhs = st.get('lhs')
+                                if lhs and len(lhs) > 1 and place_fields(lhs) and place_fields(lhs)[-1][1] == fe[2] and hb.dominates(blk, c.bb):
+                                    r = hb._expr_rvalue(st['rv'], 0, frozenset())
+                                    if any(x[0] == 'call' and x[1].split('::')[-1] in CONV for x in walk(r)):
+                                        ok = True
+                rep.ob('R13.j', hfn, '%s(%s) from the path' % (short(c.name), pn), ok, c.where(), None if ok else
+                       '%s receives `%s` as %s: the field is #[serde(skip)] and the handler never fills it from the path, so the operation always addresses the default identifier (numeric 1), whatever stream/topic the request names' % (short(c.name), render(e)[:60], pn))
+
+    rep.rule('R13.k', 'frames are read completely: a primitive that may return fewer bytes than asked for (AsyncReadExt::read, RecvStream::read) fills a frame buffer only inside a loop that consumes its count; the transport readers use read_exact (sibling transports agree)', floor=2, analysis='A14 read-all discipline')
+    SHORT = ('tokio::io::AsyncReadExt::read', 'std::io::Read::read', 'tokio::io::AsyncReadExt::read_buf', 'quinn::RecvStream::read')
+    DEAD = {'<server::quic::quic_sender::QuicSender as server::binary::sender::Sender>::read':
+            'never called: QUIC requests are read with RecvStream::read_to_end in the listener; only the TCP connection handler calls Sender::read, on TCP / TCP-TLS senders'}
+    nshort = 0
+    for df in sorted(ctx.facts.body_defs()):
+        if not (in_crate(df, 'server::') or in_crate(df, 'iggy::')) or '::tests' in df:
+            continue
+        raw = ctx.facts.raw_body(df)
+        if not any((bl.get('term') or {}).get('fn', '') in SHORT for bl in raw['blocks']):
+            continue
+        rb = ctx.body(df)
+        for c in rb.calls:
+            if c.fn not in SHORT or not is_user_call(c):
+                continue
+            nshort += 1
+            fn_ = ctx.user_fn_of(df)
+            loops = [bl for h, bl in natural_loops(rb) if c.bb in bl]
+            if fn_ in DEAD:
+                rep.ob('R13.k', fn_, short(c.fn) + ' fills the whole buffer', True, c.where(), 'listed: ' + DEAD[fn_])
+                continue
+            rep.ob('R13.k', fn_, short(c.fn) + ' fills the whole buffer', bool(loops), c.where(), 'count consumed in a loop' if loops else
+                   '`%s` may return after a part of the buffer (one TLS record, one QUIC chunk); the caller sized the buffer from the frame length and treats it as filled: a response longer than one record is decoded from a partly filled buffer and the rest desynchronises the connection (the plain TCP sibling uses read_exact)' % short(c.fn))
+    siblings = {}
+    for df in sorted(ctx.facts.body_defs()):
+        m = re.match(r'^<(iggy::tcp::client::\w+) as iggy::tcp::client::ConnectionStream>::read', df)
+        if m and '__CALLSITE' not in df:
+            rb = ctx.body(df)
+            siblings.setdefault(df.split('::{')[0], set()).update(c.fn.split('::')[-1] for c in rb.calls if is_user_call(c) and (c.fn or '').split('::')[-1] in ('read', 'read_exact'))
+    for fn_, prims in sorted(siblings.items()):
+        rep.ob('R13.k', fn_, 'transport reader uses read_exact', prims == {'read_exact'}, None, 'reads with %s' % sorted(prims))
+    rep.ob('R13.k', 'iggy::tcp::client', 'transport readers enumerated', len(siblings) >= 2, None, '%d ConnectionStream::read implementations, %d short-read call sites' % (len(siblings), nshort))
+
+    rep.rule('R13.l', 'a frame length taken from the wire is bounded before it sizes a buffer, in every transport (QUIC: read_to_end(limit); TCP: comparison with a limit dominating the allocation): a bad frame must not cost the other connections their memory', floor=2, analysis='A3+A9')
+    for fn in ('server::tcp::connection_handler::handle_connection', 'server::quic::listener::handle_stream'):
+        if not ctx.has(fn):
+            rep.anchor_lost('R13.l', fn)
+            continue
+        hb = ctx.fn_body(fn)
+        sized = [c for c in hb.calls if is_user_call(c) and c.name.split('::')[-1] in ('with_capacity', 'put_bytes', 'resize', 'read_to_end', 'reserve')]
+        if not sized:
+            rep.anchor_lost('R13.l', 'buffer sized from the frame length in ' + fn)
+        for c in sized:
+            last = c.name.split('::')[-1]
+            szarg = c.args[-1] if last in ('put_bytes', 'read_to_end', 'resize') else c.args[0]
+            se = hb.pexpr_operand(szarg)
+            if se[0] == 'const' or se[0] == 'constitem':
+                rep.ob('R13.l', fn, '%s bounded' % last, True, c.where(), 'constant limit %s' % canon(se, 0, 1))
+                continue
+            fromwire = any(x[0] == 'call' and x[1].split('::')[-1] in ('from_le_bytes', 'get_u32_le', 'read_u32_le') for x in walk(se))
+            if not fromwire:
+                continue
+            sform = canon(se, 0, 3)
+            guarded = False
+            for e, truth, _ in bool_literals_at(hb, c.bb):
+                if e[0] == 'bin' and e[1] in ('Le', 'Lt', 'Ge', 'Gt'):
+                    sides = [canon(hb_e, 0, 3) for hb_e in (e[2], e[3])]
+                    if any('from_le_bytes' in x for x in sides) and any(('MAX' in x.upper() or x.isdigit() or 'max' in x or 'size' in x) for x in sides):
+                        guarded = True
+            rep.ob('R13.l', fn, '%s bounded' % last, guarded, c.where(), 'dominated by a comparison of the announced length with a limit' if guarded else
+                   'a buffer is sized by `%s`, the length announced by the client, with no dominating upper bound: four bytes from an unauthenticated connection make the server commit up to 4 GiB' % sform[:60])
+
+    rep.rule('R13.m', 'the SDK connects to the server it is configured for: every TcpStream::connect in the TCP client receives the configured server address (the TLS handshake runs on that socket, not on a second connection)', floor=1, analysis='A9 provenance')
+    ncon = 0
+    for df in sorted(ctx.facts.body_defs()):
+        if not (df.startswith('iggy::tcp::client::') or df.startswith('<iggy::tcp::client::')):
+            continue
+        kb = ctx.body(df)
+        for c in kb.calls:
+            if c.name.endswith('TcpStream::connect') and is_user_call(c):
+                ncon += 1
+                f_ = canon(kb.pexpr_operand(c.args[0]), 0, 3)
+                ok = f_ == 'self.config.server_address'
+                rep.ob('R13.m', ctx.user_fn_of(df), 'connect(%s)' % f_[:60], ok, c.where(), None if ok else
+                       'a connection is opened to `%s`, not to the configured server address: the TLS session is attempted on a socket to the client\'s own local address and can never be established' % f_[:90])
+    if ncon == 0:
+        rep.anchor_lost('R13.m', 'TcpStream::connect in iggy::tcp::client')
 
     rep.rule('R13.b2', 'the count written in front of an element loop is the length of the collection the loop writes', floor=7, analysis='A9')
     for fn, ref in sorted(frozen['count_prefixes'].items()):
